@@ -578,6 +578,12 @@ class StoreRun:
                 errs = oracles.check_read(uri, n.coll, p + ": ", deep=self.deep and not quick)
                 if errs:
                     out.append((prop if fresh else self._damage_prop(), "O-read", errs))
+                elif not quick:
+                    self.stat("verified-reads")
+                    if len(n.coll.pixels):
+                        self.stat("verified-nonempty")
+                    if not fresh:
+                        self.stat("verified-again-after-later-op")
                 if not quick:
                     serrs = oracles.check_struct(fpath, p, p + ": ")
                     if serrs:
